@@ -465,7 +465,10 @@ def main():
         sys.exit(do_replay(sys.argv[3]))
     tier = sys.argv[2] if len(sys.argv) > 2 else os.environ.get("VERIF_TIER", "quick")
     mod = importlib.import_module("props." + pid.lower())
-    sys.exit(run_property(pid, tier, mod.obligations(tier), validators=getattr(mod, "VALIDATORS", ()),
+    obs = mod.obligations(tier)
+    if os.environ.get("VERIF_ONLY"):   # development aid: run only the obligations whose name contains the given text
+        obs = [o for o in obs if os.environ["VERIF_ONLY"] in o.name]
+    sys.exit(run_property(pid, tier, obs, validators=getattr(mod, "VALIDATORS", ()),
                           assumptions=getattr(mod, "ASSUMPTIONS", ()), explanation=getattr(mod, "EXPLANATION", ""),
                           stubs=getattr(mod, "STUBS", ())))
 
